@@ -31,8 +31,17 @@ Lemma gen_dfagg : dfagg_is_groupby_agg = true.
 Proof. reflexivity. Qed.
 Lemma gen_ncfg_ok : ncfg_ok gen_ncfg = true.
 Proof. vm_compute. reflexivity. Qed.
-Lemma gen_fmt : forall f c, n_fmt gen_ncfg f c = fmt_spark f c.
+(** the naming f-string is PySpark's fn(col), with "*" shown as 1; 'mean' is canonicalised to 'avg' first;
+    functions.py maps the six names to the expected sqlglot aggregate classes and nothing else relevant *)
+Lemma gen_fmt : forall f c, n_fmt gen_ncfg f c = fmt_arg f c.
 Proof. intros f c. reflexivity. Qed.
+Lemma gen_canon : forall f, n_canon gen_ncfg f = canon_ref f.
+Proof. intro f. reflexivity. Qed.
+Lemma gen_fn_class : forall f, n_fn_class gen_ncfg f = ref_class f.
+Proof. intro f. reflexivity. Qed.
+(** the GROUPING SETS block carries HAVING COUNT( * ) > 0 (repair of the cube-on-empty-input defect) *)
+Lemma gen_cube_having : g_cube_having gen_gcfg = true.
+Proof. reflexivity. Qed.
 Lemma gen_lowers : fmt_lowers_fn = true.
 Proof. reflexivity. Qed.
 (** sqlframe's cube loop visits every subset size 0..n exactly once *)
@@ -53,7 +62,8 @@ Definition C06_full : Prop :=
         cols out = cols (spec_cube keys aggs (eval_df d input))
         /\ Permutation (rows out) (rows (spec_cube keys aggs (eval_df d input))))
   (* shortcuts, count() and the dict form aggregate and name as PySpark does *)
-  /\ (forall m col, short_item gen_ncfg m col = Some (spark_short m col))
+  (* (PySpark itself rejects sum("*") etc., so "*" is not a column a shortcut can be asked about) *)
+  /\ (forall m col, String.eqb col "*" = false -> short_item gen_ncfg m col = Some (spark_short m col))
   /\ count_item gen_ncfg = spark_count
   /\ (forall col fn, dict_item gen_ncfg col fn = spark_dict col fn).
 
@@ -80,30 +90,48 @@ Theorem C06_agg_step :
 Proof. exact (agg_step_correct gen_cfg gen_gcfg gen_gcfg_ok). Qed.
 Print Assumptions C06_agg_step.
 
-(** (2) cube: domain = at least one row reaches the aggregation *)
-Theorem C06_partial_cube :
+(** (2) cube: every DataFrame state, every input (the empty one included, since the HAVING repair) *)
+Theorem C06_cube :
   forall d ics input keys aggs, cols input = ics -> wf_frame input -> InvR gen_cfg d ics ->
-    rows (eval_df d input) <> [] ->
     let out := eval_stages (cube_stage gen_cfg gen_gcfg cube_idx d keys aggs) input in
     cols out = cols (spec_cube keys aggs (eval_df d input))
     /\ Permutation (rows out) (rows (spec_cube keys aggs (eval_df d input))).
-Proof. exact (fun d ics input keys aggs => cube_step_correct gen_cfg gen_gcfg gen_gcfg_ok cube_idx d ics input keys aggs gen_cube_idx). Qed.
-Print Assumptions C06_partial_cube.
+Proof.
+  exact (fun d ics input keys aggs Hc Hw HI =>
+           cube_step_correct gen_cfg gen_gcfg gen_gcfg_ok cube_idx d ics input keys aggs gen_cube_idx Hc Hw HI
+                             (or_introl gen_cube_having)).
+Qed.
+Print Assumptions C06_cube.
 
 Theorem C06_cube_sets : forall ks : list expr, Permutation (cube_sets_with cube_idx ks) (powerset ks).
 Proof. exact (cube_sets_with_powerset cube_idx gen_cube_idx). Qed.
 Print Assumptions C06_cube_sets.
 
-(** (3) names: domain = column other than "*"; dict functions sum/avg/min/max/count *)
-Theorem C06_partial_names :
+(** (3) names: every shortcut on every column name, count(), and the dict form for EVERY function and column name *)
+Theorem C06_names :
   (forall m col, String.eqb col "*" = false -> short_item gen_ncfg m col = Some (spark_short m col))
   /\ count_item gen_ncfg = spark_count
-  /\ (forall col fn, dict_plain fn = true -> String.eqb col "*" = false -> dict_item gen_ncfg col fn = spark_dict col fn).
+  /\ (forall col fn, dict_item gen_ncfg col fn = spark_dict col fn).
 Proof.
-  exact (conj (shortcut_is_sparks gen_ncfg gen_ncfg_ok gen_fmt)
-        (conj (count_is_sparks gen_ncfg gen_ncfg_ok) (dict_is_sparks gen_ncfg gen_ncfg_ok gen_fmt))).
+  exact (conj (shortcut_is_sparks gen_ncfg gen_ncfg_ok gen_fmt gen_canon)
+        (conj (count_is_sparks gen_ncfg gen_ncfg_ok) (dict_is_sparks gen_ncfg gen_ncfg_ok gen_fmt gen_canon gen_fn_class))).
 Qed.
-Print Assumptions C06_partial_names.
+Print Assumptions C06_names.
+
+(** so the only part of [C06_full] that is restricted is the program part (domain [xops_ok]) *)
+Theorem C06_partial :
+  (forall xops input, wf_frame input -> NoDup (cols input) ->
+     xops_ok gen_cfg gen_gcfg (init_x (cols input)) xops = true ->
+     eval_x (xcompile gen_cfg gen_gcfg xops (init_x (cols input))) input = xspec_run xops input)
+  /\ (forall d ics input keys aggs, cols input = ics -> wf_frame input -> InvR gen_cfg d ics ->
+        let out := eval_stages (cube_stage gen_cfg gen_gcfg cube_idx d keys aggs) input in
+        cols out = cols (spec_cube keys aggs (eval_df d input))
+        /\ Permutation (rows out) (rows (spec_cube keys aggs (eval_df d input))))
+  /\ (forall m col, String.eqb col "*" = false -> short_item gen_ncfg m col = Some (spark_short m col))
+  /\ count_item gen_ncfg = spark_count
+  /\ (forall col fn, dict_item gen_ncfg col fn = spark_dict col fn).
+Proof. exact (conj C06_partial_chain (conj C06_cube C06_names)). Qed.
+Print Assumptions C06_partial.
 
 (** (4) the data-level statements of the property, for all keys / aggregates / inputs (about [spec_agg], which the
     compiled SQL equals by (1)) *)
@@ -162,25 +190,17 @@ Example C06_domain_nonempty :
      PAgg ViaGroupBy [(ECol "m", "m"%string)] [(XAgg (FAvg (ECol "m")), "avg(m)"%string)]]
   = true.
 Proof. vm_compute. reflexivity. Qed.
-Example C06_cube_domain_nonempty :
-  InvR gen_cfg (init_df ["a"; "b"]%string) ["a"; "b"]%string
-  /\ rows (eval_df (init_df ["a"; "b"]%string) (mkFrame ["a"; "b"]%string [[VNull; VInt 1]])) <> [].
-Proof. split; [apply init_inv; repeat constructor; simpl; intuition discriminate | vm_compute; discriminate]. Qed.
+(** the cube statement speaks about the empty input too: there the repaired block yields no row *)
+Example C06_cube_on_empty_input :
+  rows (eval_stages (cube_stage gen_cfg gen_gcfg cube_idx (init_df ["a"]%string) [(ECol "a", "a"%string)]
+                                [(XAgg FCountStar, "count"%string)]) (mkFrame ["a"]%string [])) = [].
+Proof. vm_compute. reflexivity. Qed.
+(** and the dict form about 'mean' and '*' *)
+Example C06_dict_mean_and_star :
+  dict_item gen_ncfg "b" "mean" = Some (XAgg (FAvg (ECol "b")), "avg(b)"%string)
+  /\ dict_item gen_ncfg "*" "count" = Some (XAgg FCountStar, "count(1)"%string).
+Proof. split; vm_compute; reflexivity. Qed.
 
-(** * refuted parts of the full statement (each is replayed on the implementation by checks/c06.py) *)
-(** cube over an input with no rows: the GROUPING SETS block yields the grand-total row, PySpark yields nothing *)
-Theorem C06_refuted_cube_empty :
-  exists d input keys aggs, InvR gen_cfg d (cols input) /\ wf_frame input /\
-    List.length (rows (eval_stages (cube_stage gen_cfg gen_gcfg cube_idx d keys aggs) input))
-    <> List.length (rows (spec_cube keys aggs (eval_df d input))).
-Proof.
-  exists (init_df ["a"]%string), (mkFrame ["a"]%string []), [(ECol "a", "a"%string)], [(XAgg FCountStar, "count"%string)].
-  split; [apply init_inv; repeat constructor; simpl; tauto|].
-  split; [intros r []|]. vm_compute. discriminate.
-Qed.
-Print Assumptions C06_refuted_cube_empty.
-(** dict form: 'mean' is named mean(col) (PySpark: avg(col)); '*' is named count( * ) (PySpark: count(1)) *)
-Theorem C06_refuted_dict_mean : dict_item gen_ncfg "b" "mean" <> spark_dict "b" "mean".
-Proof. vm_compute. discriminate. Qed.
-Theorem C06_refuted_dict_count_star : dict_item gen_ncfg "*" "count" <> spark_dict "*" "count".
-Proof. vm_compute. discriminate. Qed.
+(** * refuted parts of the full statement: none left.  The three former witnesses (cube over an empty input; dict-form
+    names of 'mean' and '*') were repaired in /repo (known_findings.json, status fixed); their statements are now the
+    Examples above, and checks/c06.py keeps their programs as corpus cases. *)
